@@ -6,14 +6,16 @@ import devices
 import stack
 
 
-def standard_requests(rng):
-    """[(name, mode, request, device_factory)] covering every exchange shape of every command."""
+def standard_requests(rng, compact=False):
+    """[(name, mode, request, device_factory)] covering every exchange shape of every command.
+    compact: the same shapes with as few exchanges as possible (one block, one brother, 255-byte
+    chunks) - used where every case is evaluated tens of thousands of times"""
     out = []
 
     def dev(**kw):
         def f():
             d = gen.random_device(__import__("random").Random(kw.pop("seed", 1)))
-            d.policy = devices.Policy(chunk=kw.pop("chunk", 40))
+            d.policy = devices.Policy(chunk=kw.pop("chunk", 255 if compact else 40))
             for k, v in kw.items():
                 setattr(d, k, v)
             return d
@@ -34,6 +36,8 @@ def standard_requests(rng):
     out.append(("getPubKey-v1", "v1", {"command": "getPubKey", "version": 1, "keyId": gen.PATHS[0]}, dev()))
     hs = [gen.random_header(r2, 19), gen.random_header(r2, 20)]
     bros = [[gen.random_header(r2, 19), gen.random_header(r2, 20)], []]
+    if compact:
+        bros = [[gen.random_header(r2, 19)], []]
     out.append(("advanceBlockchain", "v5",
                 {"command": "advanceBlockchain", "version": 5, "blocks": [h.hex() for h in hs],
                  "brothers": [[b.hex() for b in bl] for bl in bros]},
